@@ -171,6 +171,20 @@ def run(ck, F):
                  f'class {name} is stamped with category code {code} (expected Category_code::{r["simple"]})',
                  loc=r['loc'], detail={'code': code, 'super': sup})
     # one class per code, one code per class
+    # the dispatch entry is one virtual function: nothing else of that name can be selected by overload resolution
+    R2x = ck.rule('C06.2x-accept-unique', 'in Node and every class derived from it, the only members named accept are the virtual '
+                  'accept(Visitor&) const and its overriders: no other overload, and no member template of that name, can be preferred '
+                  'by overload resolution for some static type of the node or of the visitor (and then resolve the hook at compile '
+                  'time, among the overloads that visitor class happens to declare)', floor=150)
+    for n_, r_ in sorted(F.rec.items()):
+        if n_ != 'ipr::Node' and not F.derives_from(n_, 'ipr::Node'):
+            continue
+        others = [f'{m["name"]}({", ".join(m["params"])})' for m in r_['methods'] if m['name'] == 'accept' and not m['implicit']
+                  and not (m['virtual'] and m['params'] == ['ipr::Visitor &'] and m['const'])]
+        others += [f'template {t["name"]}<...> (line {t["ln"]})' for t in r_.get('method_templates', []) if t['name'] == 'accept']
+        ck.check(R2x, contracts.short(n_), not others, f'{n_} declares {others} next to the virtual accept(Visitor&): for an object of this static '
+                 'type the call binds to it and the hook is no longer chosen by the node\'s own interface class', loc=r_['loc'])
+
     R1b = ck.rule('C06.1b-code-injective', 'no two interface classes share a category code (codes without a '
                   'class, such as Unknown or last_code_cat, are harmless and not judged)', floor=150)
     by_code = {}
